@@ -170,7 +170,7 @@ CHECKS["C12"] = {
     "level_text": "every two-layer tree (x 3 suffix spellings x 5 NULL/empty directory variants x 2 drop-in directory lists) is read through all six entry "
                   "points, every three-layer tree through the two PARSING_DIRS ones; return codes and canonical dumps must agree, the history must equal "
                   "the callback log and the reference list with every member equal to its file read alone, and folding the history with the public "
-                  "econf_mergeFiles must reproduce the merged result; the history size variable holds a non-zero value before the call (output-only argument)",
+                  "econf_mergeFiles must reproduce the merged result; the history size variable holds a non-zero value before the call (output-only argument); an object carrying the same drop-in list as its own CONFIG_DIRS option is created before the other reads and must give the same result",
     "level_note": "bounded: 4 names two-layer / 3 names three-layer (quick), 5 / 4 (thorough); trusted: tree.h reference list, dump equality, ASan/UBSan",
     "rule": "case = (shape, tree); non-trivial = at least two files consulted; distinct by construction",
     "deadline": {"quick": 100, "thorough": 900},
@@ -186,7 +186,7 @@ CHECKS["C16"] = {
     "technique": "deviation-bounded exhaustive enumeration of trees x file attribute assignments x restriction combinations x all eight read entry points on a real tmpfs tree (lchown/symlink)",
     "level_text": "every small tree, every combination of the three restrictions (each with and without a permission requirement that all files satisfy), every assignment of {foreign owner, foreign group, symlink} in which at most D "
                   "files deviate from the required attributes, through all eight read entry points: the first consulted violating file decides the error code, "
-                  "no content is handed back, compliant trees read as in C01, and after econf_reset_security_settings() everything is accepted again",
+                  "no content is handed back, a refused read is refused in the same way when issued from another thread, compliant trees read as in C01, and after econf_reset_security_settings() everything is accepted again",
     "level_note": "bounded: 2 names, D<=1 (quick) / 3 names, D<=2 (thorough); runs as root (lchown); trusted: tree.h reference list, tmpfs ownership semantics, ASan/UBSan",
     "rule": "case = (entry point, tree, restriction set, attribute assignment); non-trivial = a restriction is active and at least one file deviates; "
             "distinct by construction; deviation = one file with non-default attributes",
@@ -315,7 +315,7 @@ CHECKS["C09"] = {
 CHECKS["C13"] = {
     "engine": "E1",
     "technique": "bounded exhaustive fault injection: one malformed line of each kind at every position of every small conventional file, alone and as each member of a layered read, real parser, expected code/file/line by construction",
-    "level_text": "every conventional file of <= N lines x malformed line {[abc, [abc] x, [] (flush left; as single file and 2nd drop-in also indented by blanks or a tab), key text} x every position where it cannot be a continuation "
+    "level_text": "every conventional file of <= N lines x malformed line {[abc, [abc] x, [] (flush left; as single file and 2nd drop-in also indented by blanks or a tab), key text, my key=v} x every position where it cannot be a continuation "
                   "x optional later malformed line of another kind x {single file, main file, 1st/2nd/3rd drop-in of a two-layer read} x 21 configurations: "
                   "specific code of the FIRST malformed line, econf_errLocation = that file's path and 1-based line, nothing partial handed back; plus "
                   "missing file and the frozen code-to-message table",
@@ -450,7 +450,7 @@ CHECKS["C18"] = {
     "level_text": "every unordered pair of six thread bodies (read/query/write, build/set/merge, layered read with options, malformed file, layered read on the "
                   "process-wide defaults - drop-ins-only mode in one thread, two-directory read in the other -, a write that fails followed by one that succeeds; each on private files "
                   "and objects) is executed under EVERY schedule with at most B preemptions, a scheduling point being every libc call the library makes (malloc, "
-                  "free, strdup, asprintf, snprintf, getline, fopen, lstat, scandir, strto*, ... and every call that takes or releases a file descriptor: open, openat, close, fdopen, opendir, closedir); every thread's complete result text must equal that of the body "
+                  "free, strdup, asprintf, snprintf, getline, fopen, lstat, scandir, strto*, ... and every call that takes or releases a file descriptor: open, openat, close, fdopen, opendir, closedir); every thread's complete result text (incl. the mode of the files it created) must equal that of the body "
                   "run alone; ASan active. Unsynchronised accesses that do not straddle a libc call are left to the separate free-running ThreadSanitizer pass "
                   "(16 threads x 20 rounds x 6 bodies) whose suppressions name exactly the exempt last-error-location record",
     "level_note": "bounded: pairs of the full bodies with <= 1 preemption and the failing-write body against the file-reading bodies (shortened) with <= 2 preemptions (quick); additionally triples with <= 1 and pairs of shortened bodies with <= 2 preemptions (thorough); preemption only at libc calls; no weak-memory "
